@@ -69,6 +69,8 @@ def stop_sections(report=MAIN_REPORT):
     old_submission = report[TOOL_NAME]['substitutions'].pop()
     report.stop_group(report[TOOL_NAME]['section_group'])
     report.submission.replace_main(old_submission.code, old_submission.filename)
+    # The whole file is back, so its lines are no longer shifted
+    report.submission.clear_line_offsets()
     report[TOOL_NAME]['section_group'] = None
 
 def stop_any_sections(report=MAIN_REPORT):
@@ -90,6 +92,8 @@ def next_section(name="", report=MAIN_REPORT):
     old_submission = report[TOOL_NAME]['substitutions'][-1]
     report.stop_group(report[TOOL_NAME]['section_group'])
     report.submission.replace_main(old_submission.code, old_submission.filename)
+    # The whole file is back (until the next section is cut out below), so its lines are not shifted
+    report.submission.clear_line_offsets()
     # Advance to next section
     source['section'] += 2
     section_index = source['section']
